@@ -550,3 +550,114 @@ func variadicElems(v ssa.Value) ([]ssa.Value, bool) {
 	}
 	return out, true
 }
+
+// loopCarried reports whether the value v, used inside loop l, can depend on a value computed
+// in an earlier iteration of l (other than the loop's own index / iterator): a phi in the loop
+// header with a back-edge operand, or a variable declared outside the loop that is assigned
+// inside it and read before it is assigned in the current iteration.
+// It returns a description of the carrier ("" when v is iteration-local).
+func loopCarried(p *Prog, v ssa.Value, l *Loop, use ssa.Instruction) string {
+	seen := map[ssa.Value]bool{}
+	var walk func(v ssa.Value, depth int) string
+	inLoop := func(in ssa.Instruction) bool { return in != nil && in.Block() != nil && l.Body[in.Block()] }
+	isIndexPhi := func(phi *ssa.Phi) bool {
+		if phi.Comment == "rangeindex" || phi.Comment == "rangeiter" {
+			return true
+		}
+		for _, e := range phi.Edges {
+			if bo, ok := e.(*ssa.BinOp); ok && (bo.Op == token.ADD || bo.Op == token.SUB) && bo.X == ssa.Value(phi) {
+				if _, isC := bo.Y.(*ssa.Const); isC {
+					continue
+				}
+			}
+			if _, isC := e.(*ssa.Const); isC {
+				continue
+			}
+			if in, ok := e.(ssa.Instruction); ok && inLoop(in) {
+				return false
+			}
+		}
+		return true
+	}
+	walk = func(v ssa.Value, depth int) string {
+		if v == nil || depth > 40 || seen[v] {
+			return ""
+		}
+		seen[v] = true
+		var ops []ssa.Value
+		switch x := v.(type) {
+		case *ssa.Phi:
+			if x.Block() == l.Header && !isIndexPhi(x) {
+				for i, e := range x.Edges {
+					pred := x.Block().Preds[i]
+					if l.Body[pred] {
+						if _, isC := e.(*ssa.Const); !isC {
+							return "variable " + x.Comment + " keeps its value from the previous iteration (" + p.InstrPos(x) + ")"
+						}
+					}
+				}
+			}
+			ops = x.Edges
+		case *ssa.UnOp:
+			if al, ok := x.X.(*ssa.Alloc); ok && x.Op == token.MUL {
+				declaredOutside := !inLoop(al)
+				var storesIn []*ssa.Store
+				for _, r := range *al.Referrers() {
+					if st, ok := r.(*ssa.Store); ok && st.Addr == ssa.Value(al) {
+						if inLoop(st) {
+							storesIn = append(storesIn, st)
+						}
+						ops = append(ops, st.Val)
+					}
+				}
+				if declaredOutside && len(storesIn) > 0 {
+					covered := false
+					for _, st := range storesIn {
+						if instrDominates(st, x) {
+							covered = true
+						}
+					}
+					if !covered {
+						return "variable " + al.Comment + " is declared outside the loop, assigned inside it and read before this iteration assigns it (" + p.InstrPos(x) + ")"
+					}
+				}
+			} else {
+				ops = append(ops, x.X)
+			}
+		case *ssa.BinOp:
+			ops = []ssa.Value{x.X, x.Y}
+		case *ssa.Convert:
+			ops = []ssa.Value{x.X}
+		case *ssa.ChangeType:
+			ops = []ssa.Value{x.X}
+		case *ssa.MakeInterface:
+			ops = []ssa.Value{x.X}
+		case *ssa.Extract:
+			ops = []ssa.Value{x.Tuple}
+		case *ssa.Call:
+			ops = append(ops, x.Call.Args...)
+		case *ssa.Slice:
+			ops = []ssa.Value{x.X}
+		case *ssa.Field:
+			ops = []ssa.Value{x.X}
+		case *ssa.FieldAddr:
+			ops = []ssa.Value{x.X}
+		case *ssa.Lookup:
+			ops = []ssa.Value{x.X, x.Index}
+		case *ssa.Index:
+			ops = []ssa.Value{x.X, x.Index}
+		case *ssa.IndexAddr:
+			ops = []ssa.Value{x.X, x.Index}
+		}
+		for _, o := range ops {
+			if in, ok := o.(ssa.Instruction); ok && !inLoop(in) {
+				continue // computed before the loop: the same in every iteration
+			}
+			if s := walk(o, depth+1); s != "" {
+				return s
+			}
+		}
+		return ""
+	}
+	return walk(v, 0)
+}
